@@ -13,7 +13,7 @@ from ..front import AnalysisError, norm, walk_no_nested
 from ..report import Ctx
 from ..symeval import SymEval, is_const, show
 from ..tables import Poly
-from .util import bv_equal, guard_text, is_func_call, is_self_call, leaves, mentions, msb_first_bits, strip_str, subterms
+from .util import bv_equal, drop_exit_facts, guard_text, is_func_call, is_self_call, leaves, mentions, msb_first_bits, strip_str, subterms
 
 
 # ============================================================================ C15-D1 identity bits
@@ -235,8 +235,10 @@ def suffix_table_domain(eng: Engine, ctx: Ctx, rid: str):
 
 
 # ============================================================================ C03-D9 derived counts (shared with C09-D1)
-def _is_popcount(t, of):
-    """t == bin(of).count('1') or of.bit_count()."""
+def _is_popcount(t, of, se=None):
+    """t == bin(of).count('1') or of.bit_count(), or the result of the clear-lowest-set-bit counting loop over a non-negative `of`."""
+    if t[0] == "loopout" and se is not None:
+        return _kernighan(se, t[1], t[2], of)
     if t[0] != "call" or t[2][0] != "attr":
         return False
     recv, meth = t[2][1], t[2][2]
@@ -244,6 +246,44 @@ def _is_popcount(t, of):
         return recv[3][0] == of
     if meth == "bit_count" and not t[3]:
         return recv == of
+    return False
+
+
+def _kernighan(se, lid, var, of) -> bool:
+    """n = 0; m = of; while m: m &= m - 1; n += 1  - each iteration clears exactly the lowest set bit of a non-negative m."""
+    info = se.loop_info.get(lid) or {}
+    node = info.get("node")
+    if not isinstance(node, ast.While) or node.orelse or info.get("ends") or info.get("body_dead"):
+        return False
+    test, pre, end = info.get("test"), info.get("pre") or {}, info.get("body_end") or {}
+    m = None
+    if test is not None and test[0] == "loop" and test[1] == lid:
+        m = test[2]
+    elif test is not None and test[0] == "cmp" and test[1] in ("!=", ">") and test[2][0] == "loop" and test[2][1] == lid and test[3] == ("const", 0):
+        m = test[2][2]
+    if m is None or m == var:
+        return False
+    lm, ln = ("loop", lid, m), ("loop", lid, var)
+    dec = ("bin", "-", lm, ("const", 1))
+    okm = end.get(m) in (("bin", "&", lm, dec), ("bin", "&", dec, lm))
+    okn = end.get(var) in (("bin", "+", ln, ("const", 1)), ("bin", "+", ("const", 1), ln)) and pre.get(var) == ("const", 0)
+    return bool(okm and okn and pre.get(m) == of and _nonneg(of))
+
+
+def _nonneg(t) -> bool:
+    """The term is an int that cannot be negative: x & <non-negative mask> (on every alternative; reading an unbound local raises instead)."""
+    if t[0] == "ite":
+        return _nonneg(t[2]) and _nonneg(t[3])
+    if t[0] == "undef":
+        return True
+    if t[0] == "bin" and t[1] == "&":
+        for k in (t[2], t[3]):
+            if is_const(k) and isinstance(k[1], int) and k[1] >= 0:
+                return True
+            if k[0] == "bin" and k[1] == "-" and k[3] == ("const", 1) and k[2][0] == "bin" and k[2][1] == "<<" and k[2][2] == ("const", 1):
+                return True
+            if k[0] == "un" and k[1] == "~" and k[2][0] == "bin" and k[2][1] == "<<" and k[2][2] == ("const", -1):
+                return True
     return False
 
 
@@ -278,7 +318,7 @@ def derived_counts(eng: Engine, ctx: Ctx, rid: str, labels: bool = True) -> int:
             continue
         stored_val = val_store[0].term[3][2]
         base_guards = val_store[0].guards  # an explicit in-bounds guard may dominate the whole tail of the routine
-        ok = _is_popcount(cnt_store[0].term[3][2], stored_val) and cnt_store[0].guards == base_guards
+        ok = _is_popcount(cnt_store[0].term[3][2], stored_val, se) and drop_exit_facts(cnt_store[0].guards, cnt_store[0].loops) == base_guards
         ctx.check(ok, rid, f.qualname, f"{cnt} = popcount({src})", expected=f"population count of the value stored as {src}", found=show(cnt_store[0].term[3][2])[:120]
                   + (f" under {guard_text(cnt_store[0].guards)}" if cnt_store[0].guards else ""), **loc)
         if not labels:
@@ -286,7 +326,7 @@ def derived_counts(eng: Engine, ctx: Ctx, rid: str, labels: bool = True) -> int:
         calls = [e for e in se.effects if e.kind == "call" and is_self_call(e.term, mb.name)]
         want_call = src == facts["derived_counters"].get(eng.tables.const.get("NCELL", "NCell"))
         if want_call:
-            ctx.check(len(calls) == 1 and calls[0].seq > cnt_store[0].seq and calls[0].guards == base_guards, rid, f.qualname, "map builder invoked after the cell count is stored",
+            ctx.check(len(calls) == 1 and calls[0].seq > cnt_store[0].seq and drop_exit_facts(calls[0].guards, calls[0].loops) == base_guards, rid, f.qualname, "map builder invoked after the cell count is stored",
                       expected="one unconditional call after the store", found=f"{len(calls)} call(s)", **loc)
         else:
             ctx.check(not calls, rid, f.qualname, f"map builder not invoked at {src}", expected="no call", found=f"{len(calls)} call(s)", **loc)
